@@ -22,7 +22,7 @@ ASSUMPTIONS = ASSUMPTIONS_TRANSPORT + [
     "is used in C11, and its non-Alert exceptions are reported there",
 ]
 COMPONENTS = COMPONENTS_TRANSPORT
-PLAN = plan(70, 1200, ["hostile", "hostile", "hostile_handshake", "hostile_small_limits"])
+PLAN = plan(70, 1200, ["hostile", "hostile", "hostile_handshake", "hostile_small_limits", "hostile_resumed"])
 
 FAULTS = ("drop", "dup", "delay", "blackout", "timer-late", "clock", "rebind")
 PROFILES = {
@@ -30,6 +30,7 @@ PROFILES = {
     "hostile_handshake": {"faults": ("drop", "dup", "delay"), "hostile_rate": 0.5, "t_adv_max": 1.5, "max_ops": 4,
                           "retry_p": 0.3, "allow_vn": True,
                           "retry_token_pads": (0, 0, 0, 300, 1000, 1100, 1150, 1180, 1250, 1300, 1380)},
+    "hostile_resumed": {"faults": ("drop", "dup", "delay"), "hostile_rate": 0.5, "t_adv_max": 1.5, "max_ops": 4},
     "hostile_small_limits": {"faults": FAULTS, "hostile_rate": 0.15, "small_limits": 0.9,
                              "small_stream_limits": 0.5},
 }
@@ -57,6 +58,23 @@ def run_one(seed, tier="quick", variant=None, replay=None):
         s["states"] = [repr(x) for x in h.states]
         s["extra"]["terminated_endpoints"] = sum(1 for e in sim.endpoints if e.terminated)
 
+    if variant == "hostile_resumed":
+        # the restart fault: a resumed connection with 0-RTT data, hostile datagrams (incl. forged 0-RTT packets
+        # carrying arbitrary frames) while the server still accepts early data
+        from sim.harness import run_resumed
+        from sim.runner import violation_dict
+
+        keep = {}
+        out = run_resumed(seed, replay, dict(PROFILES[variant]), make, variant, early_writes=[(300, False)],
+                          extra_summary=extra, keep=keep)
+        sim2 = keep.get("sim2")
+        if out.violation is None and sim2 is not None and sim2.api_exception:
+            out.violation = violation_dict(api_violation(sim2), sim2.k)
+            out.summary["reason"] = "violation"
+            out.summary["aborted"] = False
+        if "h" in holder:
+            out.nontrivial = sum(holder["h"].counts.values()) > 0
+        return out
     out = run_transport(seed, PROFILES[variant], make, replay=replay, monitor=True, variant=variant,
                         extra_summary=extra, foreign_api_exception=api_violation)
     h = holder["h"]
